@@ -1,5 +1,6 @@
 import LentilVerif.Model.Plane
 import LentilVerif.Model.Fourier
+import LentilVerif.Model.Propagate
 /-! `lentil.propagate.propagate_dft` for wavefronts whose fields carry no tilt and without an output mask — the part of
 the propagation loop that C03 needs (one `dft2` per field, each re-centred by the field's own offset, all landing on the
 same output window). Generic in `K`/`R` like `Model/Fourier.lean`; Mathlib-free. The general loop (tilt shifts, output
@@ -8,21 +9,11 @@ namespace Lentil
 
 variable {K R : Type} [Add R] [Sub R] [Mul R] [Neg R] [RealLike R] [Add K] [Mul K] [Zero K] [CxLike K R]
 
-/-- the output window of `propagate_dft` for `fix_shift = (0, 0)`: intersection of `array_extent(shape_out)` and
-`array_extent(prop_shape_out)`; returns (shape, offset of the output field, dft2 `shift` argument) -/
+/-- the output window of `propagate_dft` for `fix_shift = (0, 0)` and no mask: the *generated* window block
+(`Gen.dftWindow`, re-translated from propagate.py on every run) on `array_extent(shape_out)`; returns
+(shape, offset of the output field, dft2 `shift` argument) -/
 def propWindow (shapeOut propOut : Int × Int) : Option ((Int × Int) × (Int × Int) × (Int × Int)) :=
-  let outE := arrayExtent shapeOut.1 shapeOut.2 0 0
-  let propE := arrayExtent propOut.1 propOut.2 0 0
-  if intersect outE propE then
-    match intersectionShape outE propE with
-    | none => none
-    | some ish =>
-      let isft := intersectionShift outE propE
-      let iE := arrayExtent ish.1 ish.2 isft.1 isft.2
-      let pc := arrayCenter propE
-      let ic := arrayCenter iE
-      some (ish, isft, (pc.1 - ic.1, pc.2 - ic.2))
-  else none
+  dftWindow (arrayExtent shapeOut.1 shapeOut.2 0 0) propOut.1 propOut.2 0 0
 
 /-- `propagate_dft` on tilt-free fields: `out.data.append(Field(dft2(field.data, alpha, shape=intersect_shape,
 shift=prop_shift, offset=field.offset, unitary=True), offset=intersect_shift))` for every field -/
